@@ -147,7 +147,7 @@ class GraphModel(ModelObj):
         return Sym(self.v.E(self._n(u), self._n(v)))
 
     def _need_node(self, I, n):
-        if not I.ctx.branch(self.v.N(n), f"node in graph"):
+        if not I.guard(self.v.N(n), f"node in graph"):
             raise PyRaise(BuiltinExc("NetworkXError", ("node not in graph",)))
 
     def do_in_degree(self, I, n=None):
@@ -309,7 +309,7 @@ class NodeView(ModelObj):
 
     def m_getitem(self, I, n):
         n = to_z3(n, Int)
-        if not I.ctx.branch(self.g.v.N(n), "node in graph"):
+        if not I.guard(self.g.v.N(n), "node in graph"):
             raise PyRaise(BuiltinExc("KeyError", (n,)))
         return NodeAttrs(self.g, n)
 
@@ -328,7 +328,7 @@ class NodeAttrs(ModelObj):
 
     def m_getitem(self, I, k):
         e = self.g.v.A(self.n, to_z3(k, Key))
-        if not I.ctx.branch(z3.Not(is_VNone(e)), "attribute present"):
+        if not I.guard(z3.Not(is_VNone(e)), "attribute present"):
             raise PyRaise(BuiltinExc("KeyError", (k,)))
         return Sym(e)
 
